@@ -47,7 +47,7 @@ CHECKS = [
     {'id': 'C03',
      'technique': 'Hypothesis-generated fusion plans, mismatched operand pairs and block plans checked against the dense model, metamorphic fuse/unfuse relations and a rejection oracle',
      'text': 'Random nested fusion forests (depth<=3, hard/meta/mixtures) are built and undone; operand pairs with equal/subset/'
-             'superset/overlapping/disjoint sector content are fused identically and contracted/added/traced/vdot-ed over fused '
+             'superset/overlapping/disjoint sector content are fused identically and contracted/added (pairs and n-ary sums with the mismatched operand in any position)/traced/vdot-ed over fused '
              'legs and compared exactly with the unfused dense computation; incompatibly fused pairs must raise YastnError; '
              'block() identities (norm additivity, steps == once, contraction = sum of parts, unfuse refuses) incl. parts with '
              'hard-fused, differently populated common legs.',
@@ -83,7 +83,7 @@ CHECKS = [
              'generate_mpo (operators in any order, repeated sites, charged terms with a common charge, complex amplitudes, f_map, three '
              'forms of I; unequal charges must raise) and Generator.mpo_from_latex (documented forms, custom site maps) equal the sum of '
              'NumPy JW products; measure_1site/2site (all bond strings, explicit bonds, dict operators)/nsite, rdm (any site order, against '
-             'fkron traces and partial traces) and sample probabilities equal dense expectation values on random states of every admissible charge.',
+             'fkron traces and partial traces) and sample probabilities (computational basis; complex rotated local bases without symmetry) equal dense expectation values / Born probabilities on random states of every admissible charge.',
      'note': 'trusted: vlib/jw.py (standard JW convention) and the NumPy MPS contraction; one open known finding on the LaTeX parser scope'},
     {'id': 'C08',
      'technique': 'Hypothesis rule-based state machine over MPS/MPO gauge moves against a dense model + generated binding truncations against an independent sector-wise dense truncation',
